@@ -246,6 +246,24 @@ pub fn judge_jar(rep: &mut Report, inputs: &[(String, Class)], others: &[(String
                 }
             }
         }
+        // `inner_name` of an entry that was there before the nesting: the statement speaks about class names and references to them; whether the
+        // simple-name string of an entry follows its renamed class is open. Kept as it was (the repository) and "the simple name the renamed
+        // inner class ends in" are both accepted - for entries other than the one the nest itself asks for.
+        if want.inner_classes != obs.inner_classes {
+            let changing: BTreeMap<&str, &str> = exp.names.iter().filter(|(a, b)| a != b).map(|(a, b)| (a.as_str(), b.as_str())).collect();
+            let ren = |s: &str| changing.get(s).map(|x| x.to_string()).unwrap_or_else(|| s.to_string());
+            let mine = exp.applying.iter().find(|r| &r.class == old).map(|r| nest_entry(r, &ren));
+            if let (Some(wv), Some(ov)) = (&mut want.inner_classes, &obs.inner_classes) {
+                if wv.len() == ov.len() {
+                    for (w, o) in wv.iter_mut().zip(ov) {
+                        if w.inner == o.inner && w.outer == o.outer && w.flags == o.flags && w.name != o.name && Some(&*w) != mine.as_ref() {
+                            let full = w.inner.show(); let simple = strip_digits(full.rsplit('$').next().unwrap_or(&full)).to_string();
+                            if full.contains('$') && o.name.as_ref().map(|n| n.show()) == Some(simple) { w.name = o.name.clone(); rep.count("jar.inner_name_follows_renamed_class (accepted)"); }
+                        }
+                    }
+                }
+            }
+        }
         if want != obs {
             ok = false;
             for d in diff::diff(&want, &obs, 10) {
